@@ -165,7 +165,8 @@ impl Prop for C08 {
                 (Target::Valve { st, goldsrc, kind, frags }, call)
             }
             2 => {
-                let st = Gs1State::generate(&mut t, 24);
+                // small states: every part stays below the client's 1024-byte receive buffer (C04 owns truncation)
+                let st = Gs1State::generate(&mut t, 6);
                 let ff = t.draw(CFG, 2) == 1;
                 let datagrams = st.encode(&mut t, n_want, ff);
                 let call = Call { entry: Entry::Gs { version: 1, vars: false }, ip: SERVER_IP, port: Some(port), default_port: 7778, timeout: None };
